@@ -511,3 +511,33 @@ def vt_unpack_any(c):
         variant=lambda s: Z(c.len(s.view)),
         havoc={"commands": havoc_list},
     )
+
+
+# ================================================================================================ PDU.unpack on arbitrary bytes (C12)
+@REG.variant("dpapi_ng._rpc._pdu.PDU.unpack", "arbitrary-bytes", props=["C12"])
+def pdu_unpack_any(c):
+    """Any byte string of at most one fragment (64 KiB), for the PDU types a client decodes (everything except
+    bind / alter_context, which only a server receives): work proportional to the length. Potential argument as for
+    the endpoint-mapper reply: each completed list element costs a constant number of steps and consumes bytes."""
+    class_param(c, "PDU")
+    data = c.param("data", T.bytes(max_len=0xFFFF))
+    n = Z(c.len(data))
+    ptype = R.to_int(c.ctx, R.py_slice(c.ctx, c.I.rope_of(data), 2, 3), "little")
+    c.assume(z3.And(Z(ptype) != 11, Z(ptype) != 14))
+    c.raises("Exception", when=None)
+    c.raises_only({"Exception"})
+    c.ghost_bound("ticks", 2 * n + 32)
+    c.ghost_bound("copied", 2 * n + 64)
+    L = lambda v: Z(c.len(v))  # noqa: E731
+
+    def opaque_list(I_, cur, s):
+        from pyvc.values import SList
+
+        return SList(fresh_int("n_items"), lambda j: None)
+
+    def pot(s):
+        e = s.at_entry
+        return [2 * Z(s.ticks) + L(s.view) <= 2 * Z(e.ticks) + L(e.view) + 0 * Z(s._i), Z(s.copied) + L(s.view) <= Z(e.copied) + L(e.view), L(s.view) <= L(e.view)]
+
+    c.loop(0, target="dpapi_ng._rpc._bind.BindAck._unpack", invariant=pot, havoc={"results": opaque_list})
+    c.loop(0, target="dpapi_ng._rpc._bind.BindNak._unpack", invariant=pot, havoc={"versions": opaque_list})
